@@ -857,12 +857,61 @@ def rule_r10(ctx) -> RuleResult:
     return rr
 
 
+# ---------------------------------------------------------------- R11
+def rule_r11(ctx) -> RuleResult:
+    """The loop detector decides whether the tail of the expansion path is a repetition of some period.  Paths that end in the
+    same frame can repeat with different periods (a template that re-enters itself along two routes of different length),
+    so a detector that compares slices of the path for ONE candidate period only -- however that candidate is computed --
+    misses cycles; with two or more recursive calls per step the expansion then runs for ~2^depth steps.  Necessary
+    condition decided here: the comparison of path slices sits inside a loop (or comprehension) that enumerates candidates."""
+    rr = RuleResult("C05.R11", "the template-loop detector enumerates candidate periods instead of testing a single one", min_instances=1)
+    dotted = "core.detect_expand_template_loop"
+    fn = ctx.fn(dotted)
+    parents = ctx.index.mod("core").parents
+    param = fn.args.args[0].arg if fn.args.args else "stack"
+
+    def is_slice_of_path(e) -> bool:
+        return any(isinstance(n, ast.Subscript) and isinstance(n.slice, ast.Slice) and isinstance(n.value, ast.Name) and n.value.id == param
+                   for n in ast.walk(e))
+
+    def derived_from_slice(e) -> bool:
+        if is_slice_of_path(e):
+            return True
+        for n in ast.walk(e):
+            if isinstance(n, ast.Name):
+                for a in ast.walk(fn):
+                    if isinstance(a, ast.Assign) and any(isinstance(t, ast.Name) and t.id == n.id for t in a.targets) and is_slice_of_path(a.value):
+                        return True
+        return False
+
+    cmps = [n for n in ast.walk(fn) if isinstance(n, ast.Compare) and len(n.ops) == 1 and isinstance(n.ops[0], (ast.Eq, ast.NotEq))
+            and (is_slice_of_path(n.left) or is_slice_of_path(n.comparators[0]))
+            and derived_from_slice(n.left) and derived_from_slice(n.comparators[0])]
+    if not cmps:
+        raise AnalysisError("detect_expand_template_loop: the comparison of slices of the path was not recognised")
+    for c in cmps:
+        n = c
+        in_loop = False
+        while n in parents and n is not fn:
+            n = parents[n]
+            if isinstance(n, (ast.For, ast.While, ast.GeneratorExp, ast.ListComp, ast.SetComp)):
+                in_loop = True
+        if in_loop:
+            rr.ok(dotted, "`{}` is evaluated for every candidate of an enclosing loop".format(unparse(c)[:70]))
+        else:
+            rr.bad(Finding("C05.R11", X.CORE, dotted, unparse(c)[:100],
+                           "the repetition test is evaluated for a single candidate period: a cycle in which the template just entered occurs "
+                           "twice per period (two routes of different length back to itself) is never recognised, and with several recursive "
+                           "calls per step expand() runs for about 2^100 steps", c.lineno))
+    return rr
+
+
 def run(ctx) -> list:
     cg = CallGraph(ctx.index)
     sf = SqlFacts(ctx.index)
     scope = _scope(ctx, cg)
     results = [rule_r1(ctx, cg), rule_r2(ctx, cg, scope), rule_r3(ctx), rule_r4(ctx, cg, scope), rule_r5(ctx, cg, sf),
-            rule_r6(ctx), rule_r7(ctx, cg), rule_r8(ctx, cg), rule_r9(ctx), rule_r10(ctx)]
+            rule_r6(ctx), rule_r7(ctx, cg), rule_r8(ctx, cg), rule_r9(ctx), rule_r10(ctx), rule_r11(ctx)]
     if ctx.thorough:
         from ..core.cgcheck import crosscheck
 
